@@ -323,7 +323,16 @@ NoCall == [fn |-> "-", repo |-> <<>>, dig |-> <<>>, tag |-> <<>>, from |-> <<>>,
            mt |-> <<>>, sha |-> <<>>, last |-> <<>>]
 Call(fn, repo) == [NoCall EXCEPT !.fn = fn, !.repo = repo]
 \* one reader ("r") or writer ("w") obtained from the backend and what was done with it
-Obj(k, written, commits, cdig) == [k |-> k, closed |-> TRUE, written |-> written, commits |-> commits, cdig |-> cdig]
+Obj(k, written, commits, cdig) == [k |-> k, closed |-> TRUE, written |-> written, commits |-> commits, cdig |-> cdig, rfailed |-> FALSE]
+\* Reader faults.  sc.rfail = 0: the reader serves everything it holds; sc.rfail = k + 1: it serves k
+\* bytes and then fails (if it holds more than k).  By then the status line and Content-Length have
+\* gone out, so a mid-stream failure can only show as a SHORT BODY (an aborted response): exactly the
+\* k bytes, the status and headers of the success, one status line.  It may not show as a second
+\* status line, nor as anything (an error document) after the k bytes.  sc.rcerr: the answer of the
+\* reader's Close (it has nowhere to go: the response is as without it, the reader counts as closed).
+RFailed(sc, full) == sc.rfail > 0 /\ sc.rfail - 1 < full
+Served(sc, full) == IF RFailed(sc, full) THEN sc.rfail - 1 ELSE full
+RObj(sc, full) == [Obj("r", 0, 0, <<>>) EXCEPT !.rfailed = RFailed(sc, full)]
 NoList == [chk |-> FALSE, name |-> <<>>, items |-> <<>>]
 NoLink == [chk |-> FALSE, has |-> FALSE, last |-> <<>>]
 
@@ -353,7 +362,7 @@ ListOutcome(sc, n) ==
   ELSE [err |-> sc.iterr, items |-> sc.items, truncated |-> FALSE]
 
 (* rq = [m, path, q, h = [range, crange, ctype, cl], body = [n, sha, json, subj]]
-   sc = [ans, size, mt, rdig, id, chunk, wsize, werr, cerr, merr, items, iterr]
+   sc = [ans, size, mt, rdig, id, chunk, wsize, werr, cerr, merr, items, iterr, rfail, rcerr]
         ans: answer of the (first) Interface call; size / mt / rdig: the descriptor the backend
         reports (a reader serves that many bytes, or the requested part of them);
         id / chunk / wsize: ID(), ChunkSize() and initial Size() of a writer; werr / cerr /
@@ -384,7 +393,7 @@ Handle(a, rq, sc, o) ==
               LET c == <<[Call("GetBlob", repo) EXCEPT !.dig = a.dig]>> IN
               IF ~ok THEN Failed(k, sc.ans, c, <<>>)
               ELSE Exact(k, 200, "", "ctype" :> H(sc.mt) @@ "clen" :> H(Dec(sc.size)) @@ "dcd" :> H(a.dig) @@ "crange" :> NoHdr,
-                         sc.size, c, <<Obj("r", 0, 0, <<>>)>>)
+                         Served(sc, sc.size), c, <<RObj(sc, sc.size)>>)
          ELSE IF r.cls = "one" THEN
               LET c == <<[Call("GetBlobRange", repo) EXCEPT !.dig = a.dig, !.a = r.start, !.b = r.end]>>
                   end == IF r.end = -1 \/ r.end > sc.size THEN sc.size ELSE r.end
@@ -392,7 +401,7 @@ Handle(a, rq, sc, o) ==
                  ELSE IF r.start > sc.size THEN Exact(k, 416, "UNKNOWN", EmptyF, -1, c, <<Obj("r", 0, 0, <<>>)>>)
                  ELSE Exact(k, 206, "", "ctype" :> H(sc.mt) @@ "clen" :> H(Dec(end - r.start)) @@ "dcd" :> H(a.dig)
                                         @@ "crange" :> H(S_bytes \o Dec(r.start) \o <<ChDashC>> \o Dec(end - 1) \o <<ChSlash>> \o Dec(sc.size)),
-                            end - r.start, c, <<Obj("r", 0, 0, <<>>)>>)
+                            Served(sc, end - r.start), c, <<RObj(sc, end - r.start)>>)
          ELSE FreeResp(k)
     [] k = "BlobDelete" ->
          LET c == <<[Call("DeleteBlob", repo) EXCEPT !.dig = a.dig]>> IN
@@ -432,7 +441,7 @@ Handle(a, rq, sc, o) ==
          LET c == <<IF byTag THEN [Call("GetTag", repo) EXCEPT !.tag = a.tag] ELSE [Call("GetManifest", repo) EXCEPT !.dig = a.dig]>> IN
          IF ~ok THEN Failed(k, sc.ans, c, <<>>)
          ELSE Exact(k, 200, "", "ctype" :> H(sc.mt) @@ "clen" :> H(Dec(sc.size)) @@ "dcd" :> (IF o.omitdig THEN NoHdr ELSE H(sc.rdig)),
-                    sc.size, c, <<Obj("r", 0, 0, <<>>)>>)
+                    Served(sc, sc.size), c, <<RObj(sc, sc.size)>>)
     [] k = "ManifestHead" ->
          LET c == <<IF byTag THEN [Call("ResolveTag", repo) EXCEPT !.tag = a.tag] ELSE [Call("ResolveManifest", repo) EXCEPT !.dig = a.dig]>> IN
          IF ~ok THEN Failed(k, sc.ans, c, <<>>)
@@ -501,7 +510,9 @@ SuccessHeaders(r, o) ==
   (r.mode = "exact" /\ r.status < 300) =>
      /\ \A x \in Mandated(r.kind, r.status) \ (IF o.omitdig THEN {"dcd"} ELSE {}) : x \in DOMAIN r.hdrs /\ r.hdrs[x].has
      /\ \* a body of known length is announced exactly: Content-Length = |body|
-        (r.kind \in {"BlobGet", "ManifestGet"}) => r.hdrs["clen"].v = Dec(r.nbody)
+        (r.kind \in {"BlobGet", "ManifestGet"}) =>
+           IF \E i \in 1..Len(r.objs) : r.objs[i].rfailed THEN r.nbody < NatVal(r.hdrs["clen"].v)      \* aborted: a proper prefix
+           ELSE r.hdrs["clen"].v = Dec(r.nbody)
      /\ r.kind \in {"TagsList", "Catalog"} => r.link.chk
 
 CallArgsValid(c) ==
@@ -524,24 +535,30 @@ AllClosed(r, sc) ==
      /\ Len(r.objs) = (IF sc.ans = "ok" /\ \E i \in 1..Len(r.calls) : r.calls[i].fn \in Opening THEN 1 ELSE 0)
 
 \* ---------------------------------------------- judging a recorded response
-(* out = [status, hdr = [key |-> [has, v]], nbody, err = [json, code], list = [ok, name, items],
-          linkp = [ok, path, last, n], crp = [ok, start, end, total], calls = <<call...>>, objs = <<[k, closes, written, commits, cdig]...>>] *)
+(* out = [status, nwh (WriteHeader calls), hdr = [key |-> [has, v]], nbody, err = [json, code], list = [ok, name, items],
+          linkp = [ok, path, last, n], crp = [ok, start, end, total], calls = <<call...>>, objs = <<[k, closes, written, commits, cdig, rfailed]...>>] *)
+Faulted(out) == \E i \in 1..Len(out.objs) : out.objs[i].rfailed       \* a reader failed before its end
 Universal(rq, out) ==
   /\ out.status \in 200..299 \cup 400..599
   /\ out.status >= 400 => (out.err.json /\ out.hdr["ctype"] = H(MT_json))  \* a JSON OCI error body, declared as JSON
   /\ out.err.code \in StdCodes => out.status = StdStatus[out.err.code]    \* status agrees with code
-  /\ (out.hdr["clen"].has /\ rq.m # "HEAD") => out.hdr["clen"].v = Dec(out.nbody)
+  /\ out.nwh <= 1                                                        \* one status line
+  \* Content-Length = |body|, unless a backend reader failed mid-stream: then the body is a prefix
+  /\ (out.hdr["clen"].has /\ rq.m # "HEAD") =>
+       IF Faulted(out) THEN Small(out.hdr["clen"].v) /\ out.nbody <= NatVal(out.hdr["clen"].v)
+       ELSE out.hdr["clen"].v = Dec(out.nbody)
   \* a partial response announces exactly what it carries (crp = the Content-Range header read as
   \* "bytes start-end/total", each number clamped to +-10^9 by the harness)
   /\ (out.status = 206 /\ rq.m # "HEAD") =>
        /\ out.hdr["crange"].has /\ out.crp.ok
        /\ out.crp.start >= 0 /\ out.crp.end < out.crp.total
-       /\ out.crp.end - out.crp.start + 1 = out.nbody
+       /\ IF Faulted(out) THEN out.nbody <= out.crp.end - out.crp.start + 1
+          ELSE out.crp.end - out.crp.start + 1 = out.nbody
   /\ \A i \in 1..Len(out.calls) : CallArgsValid(out.calls[i])
   /\ \A i \in 1..Len(out.objs) : /\ out.objs[i].closes >= 1
                                  /\ out.objs[i].commits > 0 => Ref!IsDigest(out.objs[i].cdig)
 
-ObjMatches(x, w) == x.k = w.k /\ x.closes >= 1 /\ x.written = w.written /\ x.commits = w.commits /\ x.cdig = w.cdig
+ObjMatches(x, w) == x.k = w.k /\ x.rfailed = w.rfailed /\ x.closes >= 1 /\ x.written = w.written /\ x.commits = w.commits /\ x.cdig = w.cdig
 
 Matches(rq, out, r) ==
   /\ Universal(rq, out)
